@@ -355,7 +355,9 @@ Proof.
   { remember (ht_delayed now s) as s1 eqn:E; clear E. unfold ht_inactivity, c_limit_reached. pass_n. }
   destruct (ht_inactivity now (ht_delayed now s)) as [s2 go]. cbn [fst] in H2.
   destruct go; [|exact H2].
-  unfold ht_phase, c_limit_reached, c_timeout_occurred, set_fin_flag. pass_n.
+  assert (H3 : JN (ht_nak now s2)) by (unfold ht_nak, c_timeout_occurred; pass_n).
+  unfold ht_phase. remember (ht_nak now s2) as s3 eqn:E3; clear E3.
+  unfold ht_ackphase, c_limit_reached, c_timeout_occurred, set_fin_flag. pass_n.
 Qed.
 
 (* the unacknowledged receiver's bookkeeping: nothing is ever queued for transmission except a
@@ -532,22 +534,24 @@ Proof.
     repeat (destr_inner; cbn [fst snd]); u18_head; try (eapply (U18_ext s1); [exact H1 | reflexivity ..]). }
   destruct (ht_inactivity now (ht_delayed now s)) as [s2 go]. cbn [fst] in H2.
   destruct go; [|exact H2].
-  unfold ht_phase. destruct (r_phase s2).
-  - (* the NAK timer never runs in unacknowledged mode *)
-    destruct (is_immediate (r_nakproc s2) || eof_received s2); [|exact H2].
-    destruct H2 as (A & B & C & D & (E1 & E2) & F & G). unfold c_timeout_occurred.
+  assert (H3 : U18 (ht_nak now s2)).
+  { (* the NAK timer never runs in unacknowledged mode *)
+    destruct H2 as (A & B & C & D & (E1 & E2) & F & G). unfold ht_nak, c_timeout_occurred.
     rewrite (c_update_paused now _ E1). rewrite E2. cbn [fst snd].
-    unfold U18, closure, nak_idle. cbn. splits; auto.
+    unfold U18, closure, nak_idle. cbn. splits; auto. }
+  unfold ht_phase. remember (ht_nak now s2) as s3 eqn:E3; clear E3.
+  unfold ht_ackphase. destruct (r_phase s3).
+  - exact H3.
   - unfold c_limit_reached. repeat (destr_inner; cbn [fst snd]); u18_head;
-      try first [ eapply (U18_ext s2); [exact H2 | reflexivity ..]
+      try first [ eapply (U18_ext s3); [exact H3 | reflexivity ..]
                 | match goal with |- U18 (upd_ack _ (set_fin_flag ?b ?x)) =>
                     eapply (U18_ext (set_fin_flag b x));
-                    [apply U18_set_fin_flag; eapply (U18_ext s2); [exact H2 | reflexivity ..] | reflexivity ..] end ].
+                    [apply U18_set_fin_flag; eapply (U18_ext s3); [exact H3 | reflexivity ..] | reflexivity ..] end ].
   - unfold c_limit_reached. repeat (destr_inner; cbn [fst snd]); u18_head;
-      try first [ eapply (U18_ext s2); [exact H2 | reflexivity ..]
+      try first [ eapply (U18_ext s3); [exact H3 | reflexivity ..]
                 | match goal with |- U18 (upd_ack _ (set_fin_flag ?b ?x)) =>
                     eapply (U18_ext (set_fin_flag b x));
-                    [apply U18_set_fin_flag; eapply (U18_ext s2); [exact H2 | reflexivity ..] | reflexivity ..] end ].
+                    [apply U18_set_fin_flag; eapply (U18_ext s3); [exact H3 | reflexivity ..] | reflexivity ..] end ].
 Qed.
 
 Lemma U18_resume now s : U18 s -> U18 (resume now s).
@@ -775,12 +779,21 @@ Qed.
 Lemma N8_ht_inactivity now s : N8 s -> N8 (fst (ht_inactivity now s)).
 Proof. intros H. unfold ht_inactivity, c_limit_reached. repeat (first [destr_pair_keep | destr_inner]; cbn [fst snd]); n8. Qed.
 
+Lemma N8_ht_nak now s : N8 s -> N8 (ht_nak now s).
+Proof.
+  intros H. unfold ht_nak.
+  destruct (c_timeout_occurred now (t_nak (r_timer s))) as [c occ].
+  assert (H1 : N8 (upd_nak (fun _ => c) s)) by (eapply (N8_ext s); [exact H|reflexivity ..]).
+  destruct occ; [|exact H1].
+  match goal with |- N8 (if is_nil (r_naks ?y) then _ else _) => assert (H2 : N8 y) end.
+  { destruct (_ && _); [|exact H1]. apply (N8_set_all s); [exact H|reflexivity|reflexivity]. }
+  destruct (is_nil _); [|exact H2]. eapply N8_ext; [exact H2|reflexivity ..].
+Qed.
 Lemma N8_ht_phase now s : N8 s -> N8 (ht_phase now s).
 Proof.
-  intros H. unfold ht_phase, c_limit_reached, c_timeout_occurred, set_fin_flag.
+  intros H0. unfold ht_phase. pose proof (N8_ht_nak now s H0) as H. remember (ht_nak now s) as s1 eqn:E; clear E.
+  unfold ht_ackphase, c_limit_reached, c_timeout_occurred, set_fin_flag.
   repeat (first [destr_pair_keep | destr_inner]; cbn [fst snd]); try n8.
-  all: match goal with |- N8 (set_r_naks (get_all_naks ?x) ?x) =>
-         apply (N8_set_all s); [exact H|reflexivity|reflexivity] end.
 Qed.
 
 Lemma N8_handle_timeout now s : N8 s -> N8 (handle_timeout now s).
@@ -1075,9 +1088,12 @@ Proof.
     destruct (ht_inactivity now (ht_delayed now (set_r_out [] s))) as [s2 go]. cbn [fst] in H2.
     destruct go; [|exact H2].
     unfold ht_phase. destruct H2 as (A & B & C & D & E & F). assert (H2 : DF s2) by (unfold DF; splits; auto).
-    unfold eof_received. rewrite A, B. cbn [orb is_some].
-    destruct (r_phase s2); [exact H2| |]; unfold c_limit_reached, set_fin_flag;
-      repeat (destr_inner; cbn [fst snd]); df_leaf s2 H2.
+    assert (H3 : DF (ht_nak now s2)).
+    { destruct F as (F1 & F2). unfold ht_nak, c_timeout_occurred. rewrite (c_update_paused now _ F1), F2.
+      eapply (DF_ext s2); [exact H2 | reflexivity ..]. }
+    remember (ht_nak now s2) as s3 eqn:E3; clear E3.
+    unfold ht_ackphase. destruct (r_phase s3); [exact H3| |]; unfold c_limit_reached, set_fin_flag;
+      repeat (destr_inner; cbn [fst snd]); df_leaf s3 H3.
   - split; [unfold cancel; apply DF_cancel_; eapply (DF_ext (set_r_out [] s)); [exact H0 | reflexivity ..]|].
     eapply Forall_impl; [|apply (JN_cancel_ now (set_r_cond CancelReceived (set_r_out [] s))); unfold JN; cbn; constructor].
     intros [x|x]; cbn; tauto.
@@ -1199,7 +1215,10 @@ Proof.
     apply (RL_running s2). reflexivity. }
   destruct (ht_inactivity now (ht_delayed now s)) as [s2 go]. cbn [fst] in H2.
   destruct go; [|exact H2].
-  unfold ht_phase, c_limit_reached, c_timeout_occurred, set_fin_flag.
+  assert (H3 : RL (ht_nak now s2)).
+  { unfold ht_nak, c_timeout_occurred. repeat (first [destr_pair_keep | destr_inner]; cbn [fst snd]); try rl. }
+  unfold ht_phase. remember (ht_nak now s2) as s3 eqn:E3; clear E3.
+  unfold ht_ackphase, c_limit_reached, c_timeout_occurred, set_fin_flag.
   repeat (first [destr_pair_keep | destr_inner]; cbn [fst snd]); try rl.
 Qed.
 
